@@ -9,7 +9,7 @@
    sets in harness area simprops. *)
 From Coq Require Import ZArith List Bool.
 From Model Require Import Bits Word Instr Sim.
-From Proofs Require Import SimAccess.
+From Proofs Require Import SimAccess SimObs.
 Import ListNotations.
 Open Scope Z_scope.
 
@@ -40,6 +40,35 @@ Print Assumptions C28_lookup_after_update.
 Theorem C28_update_keeps_sorted : forall o a f, sorted_obs o -> sorted_obs (obs_update o a f).
 Proof. exact sorted_update. Qed.
 Print Assumptions C28_update_keeps_sorted.
+
+(* whole instructions (after the fetch, which is one tracked read of the PC): instructions
+   without a memory operand add nothing, on every path; a completed LD/LDR adds exactly READ at
+   its effective address; a completed ST to ordinary memory adds WRITTEN and, iff the word
+   changes, MODIFIED *)
+Theorem C28_no_operand_no_mark : forall e i o s,
+  no_mem_operand i = true -> s_obs s = o -> s_obs (fst (exec e i s)) = o.
+Proof. intros e i o s N E. exact (exec_obs_neutral e i o N s E). Qed.
+Print Assumptions C28_no_operand_no_mark.
+
+Theorem C28_ld_marks_read : forall e dr off s s' u,
+  exec e (SLD dr off) s = (s', inl u) -> s_obs s' = obs_update (s_obs s) (wrap16 (s_pc s + off)) OBS_READ.
+Proof. exact exec_obs_ld. Qed.
+Print Assumptions C28_ld_marks_read.
+
+Theorem C28_ldr_marks_read : forall e dr br off s s' u,
+  exec e (SLDR dr br off) s = (s', inl u) ->
+  s_obs s' = obs_update (s_obs s) (wrap16 (w_data (rget (s_regs s) br) + off)) OBS_READ.
+Proof. exact exec_obs_ldr. Qed.
+Print Assumptions C28_ldr_marks_read.
+
+Theorem C28_st_marks_written : forall e sr off s s' u,
+  exec e (SST sr off) s = (s', inl u) ->
+  let ea := wrap16 (s_pc s + off) in
+  (IO_START <=? ea) = false ->
+  s_obs s' = let o := obs_update (s_obs s) ea OBS_WRITTEN in
+             if word_eqb (mget (s_mem s) ea) (rget (s_regs s) sr) then o else obs_update o ea OBS_MODIFIED.
+Proof. exact exec_obs_st. Qed.
+Print Assumptions C28_st_marks_written.
 
 Theorem C28_cleared_every_step : forall e s, step_in e s = step_in e (upd_obs s []).
 Proof. reflexivity. Qed.
